@@ -179,6 +179,9 @@ class DN(Packet):
 class Sel(Packet):
     t = Int(1)
     a = Ref(t.chooses({3: DN()}), default=DN())
+class Hdr(Packet):
+    key = Data(until_marker=b':', consume_delimiter=False)
+    val = Data(until_marker=b'\\n')
 class Cnt(Packet):
     n = Int(1)
     xs = Int(1).repeated(n)
@@ -190,6 +193,9 @@ class Two(Packet):
         [['parse', 'p0', 'Sel', b'\x03\x07'.hex()], ['parse', 'p1', 'Sel', b'\x03\x09'.hex()]],
         [['new', 'p0', 'Two', {"p": "Two", "f": []}], ['new', 'p1', 'Two', {"p": "Two", "f": []}], ['set', 'p0', ['a', 'xs'], [1, 2]], ['pack', 'p1']],
         [['new', 'p0', 'Cnt', {"p": "Cnt", "f": []}], ['new', 'p1', 'Cnt', {"p": "Cnt", "f": []}], ['set', 'p0', ['n'], 2], ['pack', 'p0'], ['pack', 'p1']],
+        # a delimiter that is not consumed: a packet built by the constructor, packed, then another packet of the class parsed
+        [['new', 'p0', 'Hdr', {"p": "Hdr", "f": [["key", {"x": b'Host'.hex()}], ["val", {"x": b'example.org'.hex()}]]}], ['pack', 'p0'],
+         ['parse', 'p1', 'Hdr', b'A::b\n'.hex()], ['pack', 'p0'], ['pack', 'p1']],
     ], threads=dict(cls='Two', raws=[bytes([n] + list(range(n)) + [m] + list(range(m))).hex() for n in range(1, 5) for m in range(1, 3)],
                     rounds=300 if tier == 'quick' else 20000))
     parts = shard(payload_groups, max(1, len(payload_groups) // NPROC + 1))
@@ -202,6 +208,11 @@ class Two(Packet):
         src = "".join(decl.py_class(c, pc) for c, pc in sorted(table.items()))
         for w in gres['writes']:
             dist['field_writes'] += 1
+            # attributes that pack() reads back must never change after class creation (the lazily compiled ones -- pack, unpack,
+            # struct_obj ... of a Field held by a selector -- are written once, from their placeholders)
+            if len(w) > 2 and w[2] == 'changed' and w[1] in ('delimiter_to_be_included', 'default', 'prototype', 'until_marker', 'byte_count'):
+                failures.append(dict(kind='oracle', sig='field-state-change', what=f"unpack/pack/construct CHANGED the value of attribute {w[1]!r} of a {w[0]} field object shared by all packets of the class",
+                                     classes=src))
             if w[1] not in ALLOWED_ATTRS:
                 failures.append(dict(kind='oracle', sig='field-write', what=f"unpack/pack/construct wrote attribute {w[1]!r} on a {w[0]} field object shared by all packets of the class",
                                      classes=src))
@@ -291,7 +302,7 @@ class Two(Packet):
                                      model=[om[0]] + norm(om[1:]), implementation=[oi[0]] + norm(oi[1:])))
                 break
     pres = results[-1]['groups'][0]
-    names = ['D8 regex delimiter remembered on the shared field object', 'D9 a deferred selector returns the same packet object to every parse', None, None]
+    names = ['D8 regex delimiter remembered on the shared field object', 'D9 a deferred selector returns the same packet object to every parse', None, None, None]
     for h, rep, nm in zip(probes['histories'], pres['reports'], names):
         for r in rep:
             if r['kind'] in ('interference', 'shared-object', 'pack-impure'):
